@@ -413,6 +413,49 @@ def flushMax (st : Int) (batch : List Int) : Int :=
   | some m => if st < m then m else st
   | none => st
 
+/-! Initial values of the running minimum / maximum.  The element types of the kernels are put
+on one integer key scale that preserves their order: an i64 is its own key; a finite f64 is
+its sign-magnitude bit pattern (`+x ↦ bits x`, `-x ↦ -(bits x)`, both zeros ↦ 0), so finite keys
+lie in `[-f64MaxKey, f64MaxKey]`, and -∞ / +∞ are one step outside.  `initKey` reads the constant
+names the source uses (extracted by tools/consts.d/c03.py on every run). -/
+
+def f64MaxKey : Int := 9218868437227405311        -- bits of f64::MAX = 0x7FEF_FFFF_FFFF_FFFF
+def f64NegInfKey : Int := -(f64MaxKey + 1)
+def f64PosInfKey : Int := f64MaxKey + 1
+
+def initKey : String → Option Int
+  | "f64::NEG_INFINITY" => some f64NegInfKey
+  | "f64::INFINITY" => some f64PosInfKey
+  | "f64::MAX" => some f64MaxKey
+  | "f64::MIN" => some (-f64MaxKey)
+  | "f64::MIN_POSITIVE" => some 4503599627370496      -- 0x0010_0000_0000_0000
+  | "f64::EPSILON" => some 4372995238176751616        -- 0x3CB0_0000_0000_0000
+  | "0.0" => some 0
+  | "i64::MIN" => some i64Min
+  | "i64::MAX" => some i64Max
+  | "0" => some 0
+  | _ => none
+
+/-- least / greatest key a value of the element type can have (±∞ are possible f64 data) -/
+def keyLo : String → Option Int
+  | "f64" => some f64NegInfKey
+  | "i64" => some i64Min
+  | _ => none
+
+def keyHi : String → Option Int
+  | "f64" => some f64PosInfKey
+  | "i64" => some i64Max
+  | _ => none
+
+/-- a running maximum must start at the least key of its type, a running minimum at the greatest -/
+def initOk (entry : String × String × String × String) : Bool :=
+  match entry with
+  | (_, ty, kind, init) =>
+    match initKey init, kind with
+    | some k, "max" => keyLo ty == some k
+    | some k, "min" => keyHi ty == some k
+    | _, _ => false
+
 /-- `compare_for_min_max(a, b)`: a < b -/
 def lessForMinMax (a b : Value) : Bool := cmpSql a b == .lt
 
